@@ -11,15 +11,24 @@ namespace Pistache.Promise
 /-- a settled core keeps its state (outcome and value) -/
 def Stable (cs cs' : List Core) : Prop := ∀ c, stOf cs c ≠ .pending → stOf cs' c = stOf cs c
 
+/-- a pending core one of whose own continuations has already been told of a rejection (its promise is
+    doomed: its only settler has been spent on a swallowed rejection) stays pending -/
+def DoomStable (cs cs' : List Core) : Prop :=
+  ∀ c i r, rq cs c i = some r → r.settler = true → 1 ≤ r.jc → stOf cs c = .pending → stOf cs' c = .pending
+
+/-- no continuation attached to `d` has been told of a rejection -/
+def NoSpent (cs : List Core) (d : Nat) : Prop := ∀ i r, rq cs d i = some r → r.settler = true → ¬ 1 ≤ r.jc
+
 structure Ext (cs cs' : List Core) : Prop where
   fwd : Fwd cs cs'
   stable : Stable cs cs'
+  doom : DoomStable cs cs'
 
 theorem Ext.refl (cs : List Core) : Ext cs cs :=
-  ⟨fun c i y hy => ⟨y, hy, rfl, rfl, Nat.le_refl _, Nat.le_refl _⟩, fun _ _ => rfl⟩
+  ⟨fun c i y hy => ⟨y, hy, rfl, rfl, Nat.le_refl _, Nat.le_refl _⟩, fun _ _ => rfl, fun _ _ _ _ _ _ h => h⟩
 
 theorem Ext.trans {a b c : List Core} (h1 : Ext a b) (h2 : Ext b c) : Ext a c := by
-  refine ⟨?_, ?_⟩
+  refine ⟨?_, ?_, ?_⟩
   · intro k i y hy
     obtain ⟨x, hx, hk, hc, hr, hj⟩ := h1.fwd k i y hy
     obtain ⟨z, hz, hk2, hc2, hr2, hj2⟩ := h2.fwd k i x hx
@@ -28,36 +37,44 @@ theorem Ext.trans {a b c : List Core} (h1 : Ext a b) (h2 : Ext b c) : Ext a c :=
     have e1 := h1.stable k hk
     have e2 := h2.stable k (by rw [e1]; exact hk)
     rw [e2, e1]
+  · intro k i r hr hs hj hp
+    have p1 := h1.doom k i r hr hs hj hp
+    obtain ⟨x, hx, hxk, _, _, hxj⟩ := h1.fwd k i r hr
+    exact h2.doom k i x hx (by rw [settler_congr hxk]; exact hs) (by omega) p1
 
 theorem ext_of_eq {cs cs' : List Core} (h : cs' = cs) : Ext cs cs' := by subst h; exact Ext.refl _
 
 theorem ext_reqUpd {cs cs' : List Core} {c i : Nat} {r r' : Req} (u : ReqUpd cs cs' c i r r')
     (hk : r'.kind = r.kind) (hch : r'.chain = r.chain) (hrc : r.rc ≤ r'.rc) (hjc : r.jc ≤ r'.jc) : Ext cs cs' :=
-  ⟨u.fwd hk hch hrc hjc, fun k _ => u.st k⟩
+  ⟨u.fwd hk hch hrc hjc, fun k _ => u.st k, fun k _ _ _ _ _ hp => (u.st k).trans hp⟩
 
-theorem ext_stUpd {cs cs' : List Core} {d : Nat} {s : St} (u : StUpd cs cs' d s) (hp : Pending cs d) : Ext cs cs' := by
-  refine ⟨u.fwd, ?_⟩
-  intro k hk
-  by_cases hkd : k = d
-  · subst hkd; exact absurd hp hk
-  · exact u.other k hkd
+theorem ext_stUpd {cs cs' : List Core} {d : Nat} {s : St} (u : StUpd cs cs' d s) (hp : Pending cs d) (hns : NoSpent cs d) : Ext cs cs' := by
+  refine ⟨u.fwd, ?_, ?_⟩
+  · intro k hk
+    by_cases hkd : k = d
+    · subst hkd; exact absurd hp hk
+    · exact u.other k hkd
+  · intro k i r hr hs hj hpk
+    by_cases hkd : k = d
+    · subst hkd; exact absurd hj (hns i r hr hs)
+    · exact (u.other k hkd).trans hpk
 
 theorem ext_appUpd {cs cs' : List Core} {p : Nat} {r : Req} (u : AppUpd cs cs' p r) : Ext cs cs' :=
-  ⟨u.fwd, fun k _ => u.st k⟩
+  ⟨u.fwd, fun k _ => u.st k, fun k _ _ _ _ _ hp => (u.st k).trans hp⟩
 
 theorem ext_setReq (m : M) (c i : Nat) (r r' : Req) (hr : rq m.cores c i = some r)
     (hk : r'.kind = r.kind) (hch : r'.chain = r.chain) (hrc : r.rc ≤ r'.rc) (hjc : r.jc ≤ r'.jc) :
     Ext m.cores (m.setCore c (setReq (m.core c) i r')).cores :=
   ext_reqUpd (reqUpd_setReq m.cores c i r r' hr) hk hch hrc hjc
 
-theorem ext_fulfilAndWalk (m : M) (d : Nat) (v : Int) (hp : Pending m.cores d) : Ext m.cores (fulfilAndWalk m d v).cores := by
+theorem ext_fulfilAndWalk (m : M) (d : Nat) (v : Int) (hp : Pending m.cores d) (hns : NoSpent m.cores d) : Ext m.cores (fulfilAndWalk m d v).cores := by
   by_cases hd : d < m.cores.length
-  · exact ext_stUpd (stUpd_set m.cores d (.fulfilled v) hd) hp
+  · exact ext_stUpd (stUpd_set m.cores d (.fulfilled v) hd) hp hns
   · exact ext_of_eq (List.set_eq_of_length_le (by omega))
 
-theorem ext_rejectAndWalk (m : M) (d : Nat) (e : Nat) (hp : Pending m.cores d) : Ext m.cores (rejectAndWalk m d e).cores := by
+theorem ext_rejectAndWalk (m : M) (d : Nat) (e : Nat) (hp : Pending m.cores d) (hns : NoSpent m.cores d) : Ext m.cores (rejectAndWalk m d e).cores := by
   by_cases hd : d < m.cores.length
-  · exact ext_stUpd (stUpd_set m.cores d (.rejected e) hd) hp
+  · exact ext_stUpd (stUpd_set m.cores d (.rejected e) hd) hp hns
   · exact ext_of_eq (List.set_eq_of_length_le (by omega))
 
 theorem thenOn_cores (m : M) (p : Nat) (r : Req) :
@@ -70,25 +87,27 @@ theorem ext_thenOn (m : M) (p : Nat) (r : Req) : Ext m.cores (thenOn m p r).core
   · exact ext_appUpd (appUpd_set m.cores p r hp)
   · exact ext_of_eq (List.set_eq_of_length_le (by omega))
 
-theorem ext_resolverOn (m : M) (c : Nat) (v : Int) : Ext m.cores (resolverOn m c v).cores := by
+theorem ext_resolverOn (m : M) (c : Nat) (v : Int) (hns : NoSpent m.cores c) : Ext m.cores (resolverOn m c v).cores := by
   unfold resolverOn
   split
-  · rename_i hst; exact ext_fulfilAndWalk m c v hst
+  · rename_i hst; exact ext_fulfilAndWalk m c v hst hns
   · exact Ext.refl _
 
-theorem ext_rejectionOn (m : M) (c : Nat) (e : Nat) : Ext m.cores (rejectionOn m c e).cores := by
+theorem ext_rejectionOn (m : M) (c : Nat) (e : Nat) (hns : NoSpent m.cores c) : Ext m.cores (rejectionOn m c e).cores := by
   unfold rejectionOn
   split
-  · rename_i hst; exact ext_rejectAndWalk m c e hst
+  · rename_i hst; exact ext_rejectAndWalk m c e hst hns
   · exact Ext.refl _
 
 theorem ext_newCore (cs : List Core) (x : Core) (hx : x.reqs = []) : Ext cs (cs ++ [x]) := by
-  refine ⟨?_, ?_⟩
+  refine ⟨?_, ?_, ?_⟩
   · intro c i y hy; exact ⟨y, by rw [rq_append_core cs x hx]; exact hy, rfl, rfl, Nat.le_refl _, Nat.le_refl _⟩
   · intro c hc
     by_cases hlt : c < cs.length
     · exact stOf_append_core cs x c hlt
     · exact absurd (stOf_oob cs c (by omega)) hc
+  · intro c i r hr _ _ hp
+    exact (stOf_append_core cs x c (rq_some_lt hr)).trans hp
 
 /-! ### the log -/
 
@@ -112,6 +131,45 @@ theorem logOK_append_other {cs : List Core} {log : List Ev} (ev : Ev) (hne : ∀
 
 variable {roots : List Nat}
 
+theorem noSpent_of_not_doomed {cs : List Core} (o : OwnC roots cs) {d : Nat} (hp : Pending cs d) (hnd : ¬ Doomed cs d) : NoSpent cs d := by
+  intro j x hx hs hj
+  rcases o.jcOK d j x hx hs hj with h | h
+  · exact pending_not_rejected hp h
+  · exact hnd h
+
+/-- after the counter bump of request (c,i): no continuation attached to a core `d` that was pending and not doomed is spent -/
+theorem noSpent_after {cs cs1 : List Core} {c i : Nat} {r r' : Req} (o : OwnC roots cs) (u : ReqUpd cs cs1 c i r r')
+    (hk : r'.kind = r.kind) (hch : r'.chain = r.chain) (hrc : r.rc ≤ r'.rc) (hjc : r.jc ≤ r'.jc)
+    {d : Nat} (hp : Pending cs d) (hnd : ¬ Doomed cs d) (hbump : r.jc < r'.jc → RejOK cs c) : NoSpent cs1 d := by
+  intro j x hx hs hj
+  obtain ⟨y, hy, hyk, _, _, hyj, hne, heq⟩ := u.back hk hch hrc hjc hx
+  have key : RejOK cs d := by
+    by_cases hpos : d = c ∧ j = i
+    · obtain ⟨hx', hy'⟩ := heq hpos
+      subst hx'; subst hy'
+      obtain ⟨rfl, rfl⟩ := hpos
+      by_cases h1 : 1 ≤ y.jc
+      · exact o.jcOK d j y hy (by rw [← settler_congr hk]; exact hs) h1
+      · exact hbump (by omega)
+    · have := hne hpos; subst this; exact o.jcOK d j y hy hs hj
+  rcases key with h | h
+  · exact pending_not_rejected hp h
+  · exact hnd h
+
+theorem holder_chain_not_doomed {cs : List Core} (o : OwnC roots cs) {c i : Nat} {r : Req} (hr : rq cs c i = some r) (hu : r.isUser = true)
+    (hj : ¬ 1 ≤ r.jc) : ¬ Doomed cs r.chain := by
+  rintro ⟨_, c0, i0, r0, h0, hu0, hc0, hj0⟩
+  have := holder_unique o hr hu h0 hu0 hc0
+  subst this; exact hj hj0
+
+theorem chainer_chain_not_doomed {cs : List Core} (o : OwnC roots cs) {q j : Nat} {ch : Req} (hq : rq cs q j = some ch) (hc : ch.isChainer = true) :
+    ¬ Doomed cs ch.chain := by
+  rintro ⟨_, c0, i0, r0, h0, hu0, hc0, hj0⟩
+  obtain ⟨c1, i1, r1, h1, hu1, hc1, _, hrc1⟩ := o.prov q j ch hq hc
+  have := holder_unique o h1 hu1 h0 hu0 (by rw [hc0, hc1])
+  subst this
+  exact fulfilled_not_rejOK (o.rcOK c0 i0 r0 h0 (user_settler hu0) hrc1) (o.jcOK c0 i0 r0 h0 (user_settler hu0) hj0)
+
 /-- Ext and LogOK together, for a machine reached from `m` -/
 def Sound (m m' : M) : Prop := Ext m.cores m'.cores ∧ LogOK m'.cores m'.log
 
@@ -124,18 +182,18 @@ theorem rejectAndWalk_log' (m : M) (c : Nat) (e : Nat) : (rejectAndWalk m c e).l
 theorem thenOn_log'' (m : M) (p : Nat) (r : Req) : (thenOn m p r).log = m.log := by
   unfold thenOn; simp only []; split <;> rfl
 
-theorem sound_resolverOn {m m1 : M} (c : Nat) (v : Int) (e1 : Ext m.cores m1.cores) (l1 : LogOK m1.cores m1.log) :
-    Sound m (resolverOn m1 c v) := by
+theorem sound_resolverOn {m m1 : M} (c : Nat) (v : Int) (e1 : Ext m.cores m1.cores) (l1 : LogOK m1.cores m1.log)
+    (hns : Pending m1.cores c → NoSpent m1.cores c) : Sound m (resolverOn m1 c v) := by
   unfold resolverOn
   split
-  · rename_i hst; exact sound_of e1 l1 (ext_fulfilAndWalk m1 c v hst) rfl
+  · rename_i hst; exact sound_of e1 l1 (ext_fulfilAndWalk m1 c v hst (hns hst)) rfl
   · exact ⟨e1, logOK_append_other _ (by intro cb a h; cases h) l1⟩
 
-theorem sound_rejectionOn {m m1 : M} (c : Nat) (e : Nat) (e1 : Ext m.cores m1.cores) (l1 : LogOK m1.cores m1.log) :
-    Sound m (rejectionOn m1 c e) := by
+theorem sound_rejectionOn {m m1 : M} (c : Nat) (e : Nat) (e1 : Ext m.cores m1.cores) (l1 : LogOK m1.cores m1.log)
+    (hns : Pending m1.cores c → NoSpent m1.cores c) : Sound m (rejectionOn m1 c e) := by
   unfold rejectionOn
   split
-  · rename_i hst; exact sound_of e1 l1 (ext_rejectAndWalk m1 c e hst) rfl
+  · rename_i hst; exact sound_of e1 l1 (ext_rejectAndWalk m1 c e hst (hns hst)) rfl
   · exact ⟨e1, logOK_append_other _ (by intro cb a h; cases h) l1⟩
 
 theorem sound_stepResolve (m : M) (c i : Nat) (h : Own roots m) (hf : Fulfilled m.cores c) (hl : LogOK m.cores m.log) :
@@ -170,6 +228,13 @@ theorem sound_stepResolve (m : M) (c i : Nat) (h : Own roots m) (hf : Fulfilled 
       have hget1 : rq m1.cores c i = some r' := by rw [hm1]; exact u.new
       have hst1 : stOf m1.cores c = .fulfilled v0 := by rw [hm1]; exact (u.st c).trans hv0
       have hpend1 : ∀ d, Pending m.cores d → Pending m1.cores d := by intro d hp; rw [hm1]; exact pending_of_st (u.st _) hp
+      have hpend0 : ∀ d, Pending m1.cores d → Pending m.cores d := by intro d hp; rw [hm1] at hp; exact pending_of_st (u.st _).symm hp
+      have hns1 : ∀ d, Pending m.cores d → ¬ Doomed m.cores d → NoSpent m1.cores d := by
+        intro d hp hnd; rw [hm1]; exact noSpent_after h.c u hk' hch' (by omega) (by omega) hp hnd (fun hlt => absurd hlt (by omega))
+      have hroot : ∀ d, d < m.datas.length → Pending m1.cores (m.data d).target → NoSpent m1.cores (m.data d).target := by
+        intro d hd hp
+        exact hns1 _ (hpend0 _ hp) (root_not_doomed h.c (h.dTarget _ (data_mem m d hd)))
+      have hdat1 : ∀ d, m1.data d = m.data d := by intro d; rw [hm1]; rfl
       rw [← hm1]
       clear hm1
       cases hk : r.kind with
@@ -189,6 +254,7 @@ theorem sound_stepResolve (m : M) (c i : Nat) (h : Own roots m) (hf : Fulfilled 
           simp only
           have hp0 : Pending m.cores r.chain := holder_chain_pending h.c hget hu (by omega) (by omega) (fun hh => hnoj (user_settler hu) hh.2)
           have e2 := ext_fulfilAndWalk { m1 with log := m1.log ++ [.call cb v0] } r.chain (v0 + d) (hpend1 _ hp0)
+            (hns1 _ hp0 (holder_chain_not_doomed h.c hget hu (hnoj (user_settler hu))))
           exact ⟨e1.trans e2, logOK_ext e2 l2⟩
         | void => exact ⟨e1, l2⟩
         | promise q =>
@@ -199,20 +265,24 @@ theorem sound_stepResolve (m : M) (c i : Nat) (h : Own roots m) (hf : Fulfilled 
         have hc : r.isChainer = true := isChainer_of_kind hk
         simp only
         have hp0 : Pending m.cores r.chain := chainer_chain_pending h.c hget hc (by omega) (hnoj (chainer_settler hc))
-        have e2 := ext_fulfilAndWalk m1 r.chain v0 (hpend1 _ hp0)
+        have e2 := ext_fulfilAndWalk m1 r.chain v0 (hpend1 _ hp0) (hns1 _ hp0 (chainer_chain_not_doomed h.c hget hc))
         exact ⟨e1.trans e2, logOK_ext e2 l1⟩
       | allInput d idx =>
+        have hd : d < m.datas.length := by have := h.dReq c i r hget; unfold DataIn at this; rw [hk] at this; exact this
         simp only
         split
         · exact ⟨e1, l1⟩
         · split
-          · exact sound_resolverOn (m1 := m1.setData d _) _ _ e1 l1
+          · refine sound_resolverOn (m1 := m1.setData d _) _ _ e1 l1 ?_
+            rw [hdat1]; exact hroot d hd
           · exact ⟨e1, l1⟩
       | anyInput d =>
+        have hd : d < m.datas.length := by have := h.dReq c i r hget; unfold DataIn at this; rw [hk] at this; exact this
         simp only
         split
         · exact ⟨e1, l1⟩
-        · exact sound_resolverOn (m1 := m1.setData d _) _ _ e1 l1
+        · refine sound_resolverOn (m1 := m1.setData d _) _ _ e1 l1 ?_
+          rw [hdat1]; exact hroot d hd
 
 theorem sound_stepReject (m : M) (c i : Nat) (h : Own roots m) (hrej : RejOK m.cores c) (hl : LogOK m.cores m.log) :
     Sound m (stepReject m c i) := by
@@ -241,6 +311,13 @@ theorem sound_stepReject (m : M) (c i : Nat) (h : Own roots m) (hrej : RejOK m.c
       have hlog1 : m1.log = m.log := by rw [hm1]; rfl
       have l1 : LogOK m1.cores m1.log := by rw [hlog1]; exact logOK_ext e1 hl
       have hpend1 : ∀ d, Pending m.cores d → Pending m1.cores d := by intro d hp; rw [hm1]; exact pending_of_st (u.st _) hp
+      have hpend0 : ∀ d, Pending m1.cores d → Pending m.cores d := by intro d hp; rw [hm1] at hp; exact pending_of_st (u.st _).symm hp
+      have hns1 : ∀ d, Pending m.cores d → ¬ Doomed m.cores d → NoSpent m1.cores d := by
+        intro d hp hnd; rw [hm1]; exact noSpent_after h.c u hk' hch' (by omega) (by omega) hp hnd (fun _ => hrej)
+      have hroot : ∀ d, d < m.datas.length → Pending m1.cores (m.data d).target → NoSpent m1.cores (m.data d).target := by
+        intro d hd hp
+        exact hns1 _ (hpend0 _ hp) (root_not_doomed h.c (h.dTarget _ (data_mem m d hd)))
+      have hdat1 : ∀ d, m1.data d = m.data d := by intro d; rw [hm1]; rfl
       rw [← hm1]
       clear hm1
       cases hk : r.kind with
@@ -252,7 +329,7 @@ theorem sound_stepReject (m : M) (c i : Nat) (h : Own roots m) (hrej : RejOK m.c
           simp only
           have hp0 : Pending m.cores r.chain :=
             holder_chain_pending h.c hget hu (fun hh => hnor (user_settler hu) hh.2) (fun hh => hnor (user_settler hu) hh.2) (by omega)
-          have e2 := ext_rejectAndWalk m1 r.chain e (hpend1 _ hp0)
+          have e2 := ext_rejectAndWalk m1 r.chain e (hpend1 _ hp0) (hns1 _ hp0 (holder_chain_not_doomed h.c hget hu (by omega)))
           exact ⟨e1.trans e2, logOK_ext e2 l1⟩
         | ignore =>
           cases ret with
@@ -269,18 +346,22 @@ theorem sound_stepReject (m : M) (c i : Nat) (h : Own roots m) (hrej : RejOK m.c
         have hc : r.isChainer = true := isChainer_of_kind hk
         simp only
         have hp0 : Pending m.cores r.chain := chainer_chain_pending h.c hget hc (hnor (chainer_settler hc)) (by omega)
-        have e2 := ext_rejectAndWalk m1 r.chain e (hpend1 _ hp0)
+        have e2 := ext_rejectAndWalk m1 r.chain e (hpend1 _ hp0) (hns1 _ hp0 (chainer_chain_not_doomed h.c hget hc))
         exact ⟨e1.trans e2, logOK_ext e2 l1⟩
       | allInput d idx =>
+        have hd : d < m.datas.length := by have := h.dReq c i r hget; unfold DataIn at this; rw [hk] at this; exact this
         simp only
         split
         · exact ⟨e1, l1⟩
-        · exact sound_rejectionOn (m1 := m1.setData d _) _ _ e1 l1
+        · refine sound_rejectionOn (m1 := m1.setData d _) _ _ e1 l1 ?_
+          rw [hdat1]; exact hroot d hd
       | anyInput d =>
+        have hd : d < m.datas.length := by have := h.dReq c i r hget; unfold DataIn at this; rw [hk] at this; exact this
         simp only
         split
         · exact ⟨e1, l1⟩
-        · exact sound_rejectionOn (m1 := m1.setData d _) _ _ e1 l1
+        · refine sound_rejectionOn (m1 := m1.setData d _) _ _ e1 l1 ?_
+          rw [hdat1]; exact hroot d hd
 
 theorem sound_step (m : M) (h : Own roots m) (hl : LogOK m.cores m.log) : Sound m (step m) := by
   rw [step_eq]
